@@ -1,6 +1,6 @@
 """C44 Access lists decide by first match, even when checks go asynchronous — E1, explicit-state exploration of
 rule lists x leaf behaviours x lookup-completion schedules on the real ACLChecklist / Acl::Tree code."""
-from vverif import seq
+from vverif import seq, seqla
 from vverif.core import Result, HarnessError
 
 LEVEL = 'model_checking'
@@ -21,7 +21,7 @@ ASSUME = ['the synthetic leaf ACL type follows the protocol of Squid\'s own slow
 
 
 def _build(ctx):
-    return seq.build(ctx, 'tests/testCacheManager', ['C44_checklist.cc'])
+    return seqla.build(ctx, 'tests/testCacheManager', ['C44_checklist.cc'])
 
 
 def _result(ctx, m):
